@@ -1350,6 +1350,39 @@ class Normaliser:
                     ast.fix_missing_locations(x_)
         process(node.body)
 
+    # ---- a value returned through a one-use temporary ------------------------------------------------------------------------
+    def fold_return_temps(self, node):
+        """t = E; return t   ->   return E      (t assigned right before the return and used nowhere else)"""
+        counts = {}
+        for n in ast.walk(node):
+            if isinstance(n, ast.Name):
+                counts[n.id] = counts.get(n.id, 0) + 1
+
+        def process(body):
+            for st in body:
+                for f in ('body', 'orelse', 'finalbody'):
+                    sub = getattr(st, f, None)
+                    if isinstance(sub, list) and sub and isinstance(sub[0], ast.stmt):
+                        process(sub)
+            i = 0
+            while i + 1 < len(body):
+                a, r = body[i], body[i + 1]
+                if isinstance(a, ast.Assign) and len(a.targets) == 1 and isinstance(a.targets[0], ast.Name) and isinstance(r, ast.Return) \
+                        and isinstance(r.value, ast.Name) and r.value.id == a.targets[0].id and counts.get(r.value.id, 0) == 2:
+                    body[i:i + 2] = [ast.copy_location(ast.Return(value=a.value), r)]
+                    continue
+                i += 1
+        process(node.body)
+
+    # ---- `if not c: A else: B` -------------------------------------------------------------------------------------------------
+    def positive_tests(self, node):
+        """if not c: A else: B  ->  if c: B else: A      (both branches present; an elif chain is left alone)"""
+        for n in ast.walk(node):
+            if isinstance(n, ast.If) and n.body and n.orelse and isinstance(n.test, ast.UnaryOp) and isinstance(n.test.op, ast.Not) \
+                    and not (len(n.orelse) == 1 and isinstance(n.orelse[0], ast.If)) and not (len(n.body) == 1 and isinstance(n.body[0], ast.If)):
+                n.test = n.test.operand
+                n.body, n.orelse = n.orelse, n.body
+
     def run(self):
         node = clone(self.fi.node)
         self.memo_issues = []
@@ -1359,6 +1392,8 @@ class Normaliser:
         self.fuse_item_tables(node)
         self.simplify_options(node)
         self.unroll_table_dispatch(node)
+        self.fold_return_temps(node)
+        self.positive_tests(node)
         self.split_paths(node)
         ast.fix_missing_locations(node)
         for n in ast.walk(node):
